@@ -329,7 +329,8 @@ def main(argv):
                 configs.append((["a.js", "b.js"] + list(sub), ["g.js"] if "g.js" in sub else [], 2, "stream", 1, False))
         configs.append((base_files, [], 2, "stream", 1, True))
     else:
-        for T, bound, styles in [(1, 0, ["stream"]), (2, 3, ["stream", "pretty", "compact"]), (3, 2, ["stream", "pretty"])]:
+        # (bound 3 for all three styles and bound 2 for two styles at T=3 took the tier to 22 min)
+        for T, bound, styles in [(1, 0, ["stream"]), (2, 3, ["stream"]), (2, 2, ["pretty", "compact"]), (3, 2, ["stream"]), (3, 1, ["pretty"])]:
             for style in styles:
                 configs.append((base_files + ["d.js"], [], T, style, bound, False))
         for k in range(0, len(fault_files) + 1):
@@ -360,7 +361,7 @@ def main(argv):
     # burst configurations: many one-match files, so that in the schedules where the producers run
     # ahead of the printer (the default schedule keeps the running participant running) thousands of
     # items are in flight before the first recv — queue-capacity / back-pressure bugs need that
-    n_burst = 3000 if thorough else 1500
+    n_burst = 2000 if thorough else 1500
     burst_names = []
     for i in range(n_burst):
         nm = f"m{i:04d}.js"
